@@ -122,7 +122,7 @@ class Instr:
     def scorer(self):
         m = core.load_repo()
         from ctparse.scorer import Scorer
-        inner = m._DEFAULT_SCORER
+        inner = core.default_scorer()
         ev, clock = self.events, self.clock
 
         class Rec(Scorer):
